@@ -196,7 +196,7 @@ def exec_adaptive(sc):
             if cfg["calib"] == "dynamic" and zero_scale:
                 v["finding"] = "KF-C01-dynamic-zero-residual"
                 v["inv"] = "TOL-finite-dynamic-zero-residual"
-            elif bool(ratios) and min(ratios) < TINY and (cfg["lin"] == "ts0" or cfg["strategy"] != "filter"):
+            elif bool(ratios) and min(ratios) < TINY and (cfg["lin"] == "ts0" or cfg["strategy"] != "filter" or min(ratios) < 1e-5):
                 # the tiny-step finding in its extreme form: after an accepted step 1e-7 of its predecessor (clipped
                 # remainder in front of a checkpoint) the run degrades until it overflows (q = 6 observed)
                 v["finding"] = "KF-C01-tiny-step"
@@ -211,7 +211,10 @@ def exec_adaptive(sc):
             tiny_before = [i2 for i2, (tt, hh) in enumerate(acc[1:], start=1) if ratios[i2 - 1] < TINY and tt <= t + eps]
             tiny_any = bool(ratios) and min(ratios) < TINY
             v = {"inv": "TOL", "msg": f"error at t={t:.6g} is {ratio:.1f} x (atol + rtol|u|) (atol={sc['atol']:.1e}, rtol={sc['rtol']:.1e}; {len(acc)} steps, min step ratio {min(ratios) if ratios else 1:.1e})"}
-            if (cfg["lin"] == "ts0" and tiny_before) or (cfg["strategy"] != "filter" and tiny_any):
+            extreme_before = [i2 for i2 in tiny_before if ratios[i2 - 1] < 1e-5]
+            if (cfg["lin"] == "ts0" and tiny_before) or (cfg["strategy"] != "filter" and tiny_any) or extreme_before:
+                # (first-order linearisation survives ratios down to 1e-4 in all runs so far; at 1e-7 -- a clipped
+                # remainder of 2e-8 in front of a checkpoint -- it degrades in the same way: 20 x tolerance, 65 steps)
                 v["finding"] = "KF-C01-tiny-step"
                 v["inv"] = "TOL-tiny-step"
             else:
